@@ -25,7 +25,7 @@ def seeded(ctx, n, big):
                 if size > 3 * 1048576:
                     size = 1048577
             nat = rng.randint(1, 5)
-            scripts = [{"status": 502 if k < nat - 1 else 200, "writes": [3], "read": rng.choice(["none", "half", "all"]),
+            scripts = [{"status": 502 if k < nat - 1 else 200, "writes": [3], "read": rng.choice(["none", "half", "all", "copy", "copyhalf"]), "via": rng.choice(["write", "write", "copy"]),
                         "mut": rng.choice(["none", "hdr", "url", "hdrslice", "urlfields"])} for k in range(nat)]
             steps.append({"method": rng.choice(["POST", "PUT", "GET"]), "framing": rng.choice(["declared", "chunked", "unknown"]), "size": size,
                           "hdrs": rng.sample(["X-A", "X-B2", "Content-Type", "X-C", "Accept"], rng.randint(0, 4)), "scripts": scripts})
@@ -38,7 +38,7 @@ def seeded(ctx, n, big):
         cfg = {"memReq": mem, "maxReq": -1, "memResp": 64, "maxResp": -1, "ast": ast, "expr": BC.render(ast)}
         steps = []
         for _ in range(4):
-            scripts = [{"status": 503, "writes": [2], "read": rng.choice(["half", "all", "all", "none"]), "mut": rng.choice(["none", "hdr", "url", "hdrslice", "urlfields"])}
+            scripts = [{"status": 503, "writes": [2], "read": rng.choice(["half", "all", "all", "none", "copy", "copy", "copyhalf"]), "via": rng.choice(["write", "write", "copy"]), "mut": rng.choice(["none", "hdr", "url", "hdrslice", "urlfields"])}
                        for _k in range(12)]
             steps.append({"method": "POST", "framing": rng.choice(["declared", "chunked", "unknown"]), "size": rng.choice([1, mem, mem + 7, 1024]),
                           "hdrs": ["X-A", "X-B2"], "scripts": scripts})
